@@ -25,6 +25,8 @@ func leafSchemas() []SNode {
 		mk(ref.Prim("boolean"), "boolean"), mk(ref.Prim("int"), "int"), mk(ref.Prim("long"), "long"), mk(ref.Prim("float"), "float"), mk(ref.Prim("double"), "double"),
 		mk(ref.Prim("bytes"), "bytes"), mk(ref.Prim("string"), "string"), mk(&ref.Schema{Type: "fixed", Name: "F4", Size: 4}, "fixed4"),
 		mk(ref.Record("Leaf", ref.F("a", ref.Prim("long")), ref.F("b", ref.Prim("string"))), "record"),
+		// values that encode to zero bytes
+		mk(ref.Prim("null"), "null"), mk(ref.Record("Empty"), "emptyrec"),
 	}
 }
 
@@ -49,7 +51,7 @@ func wrapSchemas(in []SNode, unions bool) []SNode {
 		out = append(out, SNode{ref.Map(n.Schema), "map>" + n.Chain, n.Depth + 1})
 		recCtr++
 		out = append(out, SNode{ref.Record(fmt.Sprintf("W%d", recCtr), ref.F("x", n.Schema)), "rec>" + n.Chain, n.Depth + 1})
-		if unions && n.Schema.Type != "union" {
+		if unions && n.Schema.Type != "union" && n.Schema.Type != "null" {
 			out = append(out, SNode{ref.Union(ref.Prim("null"), n.Schema), "union01>" + n.Chain, n.Depth + 1})
 			out = append(out, SNode{ref.Union(n.Schema, ref.Prim("null")), "union10>" + n.Chain, n.Depth + 1})
 		}
@@ -120,6 +122,9 @@ func Datums(s *ref.Schema, full bool) []ref.Datum {
 	case "fixed":
 		return []ref.Datum{ref.DFixed(strings.Repeat("\x00", s.Size)), ref.DFixed(strings.Repeat("\xa5", s.Size))}
 	case "record":
+		if len(s.Fields) == 0 {
+			return []ref.Datum{ref.DRecord()}
+		}
 		// product capped: zero-ish, typical, boundary per field position
 		var out []ref.Datum
 		n := 3
@@ -201,6 +206,9 @@ func Targets(s *ref.Schema, all bool) []reflect.Type {
 	}
 	ptr := reflect.PointerTo
 	switch s.Type {
+	case "null":
+		// nothing is stored: any destination will do; a pointer shows most (it must stay nil)
+		return one(ptr(reflect.TypeOf(int64(0))), reflect.TypeOf(""))
 	case "boolean":
 		return one(reflect.TypeOf(false), gv.NullBoolT, ptr(reflect.TypeOf(false)))
 	case "int", "long":
@@ -226,6 +234,10 @@ func Targets(s *ref.Schema, all bool) []reflect.Type {
 	case "record":
 		if s.Name == "Leaf" {
 			t := reflect.TypeOf(LeafRec{})
+			return one(t, ptr(t))
+		}
+		if len(s.Fields) == 0 {
+			t := reflect.TypeOf(struct{}{})
 			return one(t, ptr(t))
 		}
 		var out []reflect.Type
